@@ -861,7 +861,7 @@ def run(ck):
         data = KS.enc_kforest(trees, table=table)
         tree_cases.append([114] + oracle_ints([(2, a, 0, z) for a, z in table]) + case_forest(trees))
         tree_impl.append([0] + lp(data))
-        if all(-2 ** 63 <= o < 2 ** 63 for o, _ in KS.log_of_forest(trees)) or True:
+        if True:     # every generated forest goes to the well-formedness cases (offsets are drawn inside int64)
             wf_cases.append([214, DEPTH] + oracle_ints([(2, a, 0, z) for a, z in table] + [(1, z, 0, a) for a, z in table]) + case_forest(trees))
         ttr, torc = impl_tstypes(data)
         ts_cases.append([16, DEPTH] + list(torc) + lp(data))
